@@ -216,6 +216,35 @@ func indexExprAt(p *an.Prog, file string, line, col int) ast.Expr {
 	return found
 }
 
+// sameParamFieldLoad: a and b are two loads of the same field of the same parameter (p.f read twice), and the function never
+// stores to that field: both loads see one value.
+func sameParamFieldLoad(fn *ssa.Function, a, b ssa.Value) bool {
+	ua, ok1 := a.(*ssa.UnOp)
+	ub, ok2 := b.(*ssa.UnOp)
+	if !ok1 || !ok2 || ua.Op != token.MUL || ub.Op != token.MUL {
+		return false
+	}
+	fa, ok1 := ua.X.(*ssa.FieldAddr)
+	fb, ok2 := ub.X.(*ssa.FieldAddr)
+	if !ok1 || !ok2 || fa.Field != fb.Field || fa.X != fb.X {
+		return false
+	}
+	if _, isPrm := fa.X.(*ssa.Parameter); !isPrm {
+		return false
+	}
+	stored := false
+	for _, f := range an.WithAnon(fn) {
+		an.AllInstrs(f, func(in ssa.Instruction) {
+			if st, ok := in.(*ssa.Store); ok {
+				if sa, ok := st.Addr.(*ssa.FieldAddr); ok && sa.Field == fa.Field && sa.X.Type() == fa.X.Type() {
+					stored = true
+				}
+			}
+		})
+	}
+	return !stored
+}
+
 // boundsGuarded recognises the canonical guards for the SSA instruction at the site.
 func boundsGuarded(p *an.Prog, fn *ssa.Function, file string, line, col int) (bool, string) {
 	var hit ssa.Instruction
@@ -240,7 +269,7 @@ func boundsGuarded(p *an.Prog, fn *ssa.Function, file string, line, col int) (bo
 				rel = rel.Swap()
 			}
 			s, isLen := an.LenOf(rel.L)
-			if isLen && sameLoad(s, x) && want(rel.Op, rel.R) {
+			if isLen && (sameLoad(s, x) || sameParamFieldLoad(fn, s, x)) && want(rel.Op, rel.R) {
 				return true
 			}
 		}
@@ -308,6 +337,17 @@ func boundsGuarded(p *an.Prog, fn *ssa.Function, file string, line, col int) (bo
 				return isC && ((op == token.GEQ && c >= k) || (op == token.GTR && c >= k-1))
 			}) {
 				return true, "len(x) >= constant high bound"
+			}
+			// x = y[c:] (constant c, judged at its own site): len(x) = len(y) - c, so len(y) >= hi + c suffices
+			if k, ok := an.ConstInt(x.High); ok {
+				if inner, ok := x.X.(*ssa.Slice); ok && inner.High == nil && inner.Max == nil && inner.Low != nil {
+					if c0, ok := an.ConstInt(inner.Low); ok && c0 >= 0 && lenRel(inner.X, func(op token.Token, other ssa.Value) bool {
+						c, isC := an.ConstInt(other)
+						return isC && ((op == token.GEQ && c >= k+c0) || (op == token.GTR && c >= k+c0-1))
+					}) {
+						return true, "x = y[c:] and len(y) >= constant high bound + c"
+					}
+				}
 			}
 		}
 		if x.Low != nil && x.High == nil {
